@@ -339,11 +339,24 @@ class C04(CoreProp):
         "the tag name of an interpolated tag is harmless data (equal in both renders)",
     ]
     not_yet_proved = [
-        "C04_marker as one theorem over all transparent contexts (render T[ctx] d[x:=h] = subst m (escape h) (render T[ctx] d[x:=m])): "
-        "proved are the shape theorem for every expression constructor, the escaper-output theorem, harmlessness, reader round trip and "
-        "escape_app; the composition through the executor for every context, the threading of the compiler's raw-mode flag through "
-        "node lists (code nodes, mixin definitions, interpolated tags) and the boxing of every value that reaches the escaper (map "
-        "keys, caught exceptions) are checked on the implementation's outputs by the oracle only",
+        "C04_marker beyond the proved fragment. PROVED as theorems for all programs, data and bytes of h (Props/C04.v "
+        "C04_tfree_eval_independent, C04_fragment_marker_spec, C04_fragment_marker, C04_fragment_marker_subst_spec, "
+        "C04_fragment_marker_subst, C04_marker_subst_segments; Proofs/C04MarkerProofs.v): on the control fragment of Pug/Lower.v "
+        "(text, attribute-less tags, escaped buffered code, var / assignment / ++, if / else, while) over the scalar expression "
+        "fragment goodS and top-level scalar data, where the hostile names T (any set of data variables, and the variables "
+        "declared or assigned from them) occur only in transparent positions (safe_list T: no test mentions T; a T-variable is "
+        "printed by `= e` and stored into T-variables only, e built from T-variables, T-free expressions, `+`, and `c ? a : b` "
+        "with a T-free test), the rendering of S and, through C02_program_scalar, of the executor model M is ONE h-independent "
+        "list of segments with escape h in the holes, and equals replace_all m (escape h) (rendering with m) for a special-free "
+        "marker whose first byte does not occur in the rendering with the empty string (that m merely does not occur in the "
+        "literal chunks is refuted: marker_overlap_refuted). The M statements carry C02_program_scalar's `or OFuel` disjunct (no "
+        "fuel-sufficiency theorem for exec_fuel) and hold when S raises no listed-deviation flag (number + string). STILL checked on "
+        "the implementation's outputs by the oracle only: the other transparent contexts (member / index access, || and && "
+        "defaults — which are NOT transparent for the empty string —, slice / join results, template literals, array literals), "
+        "`#{}` interpolation, each (values and KEYS), mixin parameters / attributes / blocks, tag attributes, nested (non-scalar) "
+        "data; the tie between Pug/Lower.v lower_nodes and compile + parse_program (judged per case); the threading of the "
+        "compiler's raw-mode flag through node lists (code nodes, mixin definitions, interpolated tags) and the boxing of every "
+        "value that reaches the escaper (map keys, caught exceptions)",
         "no theorem mentions interpolated tags or try/catch: the pug / JS model has no constructor for them (opaque cases)",
     ]
 
